@@ -155,11 +155,39 @@ def harness(args, timeout=1200, inp=None, binary=None, env=None):
     return rc, so, se
 
 
+STALLS = []
+
+
 def harness_json(args, timeout=1200, **kw):
     rc, so, se = harness(args, timeout=timeout, **kw)
+    if rc == 5 and so.strip().startswith("{"):
+        # the stall detector fired: keep what the harness had found until then (its correspondence cases are dropped)
+        try:
+            d = json.loads(so)
+            STALLS.append((" ".join(args[:3]), (d.get("data") or {}).get("stalled", "")[:3000]))
+            d.setdefault("cases", {})
+            return StallDict(d)
+        except ValueError:
+            pass
     if rc != 0:
         raise BuildBroken("harness %s failed (rc=%d): %s" % (" ".join(args[:3]), rc, se[-3000:]))
     return json.loads(so)
+
+
+class StallDict(dict):
+    """Output of a harness run that stalled: any stream asked for is empty."""
+    def __getitem__(self, k):
+        if k == "cases":
+            return EmptyStreams()
+        return dict.get(self, k, {})
+
+
+class EmptyStreams(dict):
+    def __getitem__(self, k):
+        return []
+
+    def get(self, k, default=None):
+        return []
 
 
 def gendir(pid):
@@ -346,6 +374,11 @@ class Ctx:
         return True
 
     def finish(self):
+        for what, dump in STALLS:
+            self.violation("harness-stall:" + what, "no lint call returned for 150 s while the harness ran '%s' (a lint that does not terminate?); goroutine dump: %s" % (what, dump[:1500]),
+                           {"theorem_or_correspondence": "tie: the harness could not complete '%s'" % what, "goroutines": dump}, found_input=False)
+            self.oblige("the harness completes '%s' (no lint call hangs)" % what, False, dump[:800])
+        del STALLS[:]
         os.makedirs(EVID, exist_ok=True)
         os.makedirs(REPLAYS, exist_ok=True)
         nobl = len(self.obligations)
